@@ -69,21 +69,69 @@ def main():
                     return True
         return False
 
-    def cleared(f):
-        """caches cleared by unconditional top-level statements after the last graph write"""
-        last_write = -1
-        for i, st in enumerate(f.body):
-            if writes_graph(ast.Module(body=[st], type_ignores=[])):
-                last_write = i
-        out = []
-        for st in f.body[last_write + 1:]:
-            if isinstance(st, ast.Expr) and isinstance(st.value, ast.Call) and \
-                    isinstance(st.value.func, ast.Attribute) and st.value.func.attr == "cache_clear" and \
-                    isinstance(st.value.func.value, ast.Name):
-                out.append(st.value.func.value.id)
+    direct_writers = {n for n, f in funcs.items() if writes_graph(f)}
+    # a function "performs a write" if it writes the graph itself or calls one that does
+    performs = set(direct_writers)
+    changed = True
+    while changed:
+        changed = False
+        for n, f in funcs.items():
+            if n not in performs and calls(f) & performs:
+                performs.add(n)
+                changed = True
+
+    def stmt_performs_write(st):
+        m = ast.Module(body=[st], type_ignores=[])
+        if writes_graph(m):
+            return True
+        return any(isinstance(c, ast.Call) and isinstance(c.func, ast.Name) and c.func.id in performs for c in ast.walk(m))
+
+    def clears_of(stmts, seen=()):
+        """caches unconditionally cleared by a statement list: `<fn>.cache_clear()`, a call of a module
+        function that does so, a `for` over a literal tuple/list of cached functions, `with`/`try` blocks"""
+        out = set()
+        for st in stmts:
+            if isinstance(st, ast.Expr) and isinstance(st.value, ast.Call):
+                c = st.value
+                if isinstance(c.func, ast.Attribute) and c.func.attr == "cache_clear" and isinstance(c.func.value, ast.Name):
+                    out.add(c.func.value.id)
+                elif isinstance(c.func, ast.Name) and c.func.id in funcs and c.func.id not in seen:
+                    out |= clears_of(funcs[c.func.id].body, seen + (c.func.id,))
+            elif isinstance(st, ast.For) and isinstance(st.iter, (ast.Tuple, ast.List)) and isinstance(st.target, ast.Name):
+                names = [e.id for e in st.iter.elts if isinstance(e, ast.Name)]
+                for b in st.body:
+                    if isinstance(b, ast.Expr) and isinstance(b.value, ast.Call) and isinstance(b.value.func, ast.Attribute) \
+                            and b.value.func.attr == "cache_clear" and isinstance(b.value.func.value, ast.Name) \
+                            and b.value.func.value.id == st.target.id:
+                        out |= set(names)
+            elif isinstance(st, ast.With):
+                out |= clears_of(st.body, seen)
+            elif isinstance(st, ast.Try):
+                out |= clears_of(st.finalbody, seen)
+                if not st.handlers:
+                    out |= clears_of(st.body, seen)
         return out
 
-    mutators = [(n, cleared(f)) for n, f in funcs.items() if writes_graph(f)]
+    def cleared(f):
+        """caches cleared unconditionally after the last statement that performs a graph write"""
+        last_write = -1
+        for i, st in enumerate(f.body):
+            if stmt_performs_write(st):
+                last_write = i
+        tail = f.body[last_write + 1:]
+        out = clears_of(tail)
+        # a write inside `try:` with the clearing in `finally:` / inside a `with` block that also clears
+        if last_write >= 0 and isinstance(f.body[last_write], ast.Try):
+            out |= clears_of(f.body[last_write].finalbody)
+        return sorted(out)
+
+    # entry points: functions that perform a write and are public, or are not called by any other function
+    # of the module (a private helper called only from checked entry points is covered by its callers)
+    called_by_others = set()
+    for n, f in funcs.items():
+        called_by_others |= {c for c in calls(f) if c != n}
+    mutators = [(n, cleared(funcs[n])) for n in funcs
+                if n in performs and (not n.startswith("_") or n not in called_by_others)]
     L = ["-- GENERATED by /verif/translate/gen_caches.py from the AST of measured/conversions.py. Do not edit.",
          "namespace Measured.Generated", "",
          "/-- functions decorated with lru_cache -/",
